@@ -372,11 +372,15 @@ class SubsampledArray(CompressedArray):
 
         """
         # If the first or last element is requested then we don't need
-        # to uncompress
-        try:
-            return self._first_or_last_element(indices)
-        except IndexError:
-            pass
+        # to uncompress. This does not apply to bounds tie points:
+        # their array has one fewer dimension than the uncompressed
+        # bounds, and for two subsampled dimensions the last
+        # uncompressed bound is not the last bounds tie point.
+        if not self.bounds:
+            try:
+                return self._first_or_last_element(indices)
+            except IndexError:
+                pass
 
         # ------------------------------------------------------------
         # Method: Uncompress the entire array and then subspace it
